@@ -76,7 +76,7 @@ func startDoc(r *rand.Rand) M {
 var ptrPool = []string{"/x", "/y", "/z", "/arr", "/arr/0", "/arr/1", "/arr/2", "/arr/3", "/arr/-", "/arr/5", "/obj", "/obj/a", "/obj/b", "/obj/a/c",
 	"/obj/b/0", "/obj/b/1", "/obj/b/-", "/obj/q", "/n", "/n/x", "/m~0n", "/a~1b", "/alsoKnownAs/0", "/alsoKnownAs/-", "/new/deep", "/x/y", "/arr/2/three",
 	// other spellings of the same locations (strconv.Atoi reads +2, 02 and 2 alike; a lone ~ stays a ~)
-	"/arr/+2", "/arr/+2/x", "/arr/02/y", "/arr/+0", "/obj/a/new", "/obj/new", "/m~n", "/obj/b/+1", "/arr/002/three/deeper"}
+	"/arr/-1", "/arr/-2/x", "/obj/b/-1", "/arr/+2", "/arr/+2/x", "/arr/02/y", "/arr/+0", "/obj/a/new", "/obj/new", "/m~n", "/obj/b/+1", "/arr/002/three/deeper"}
 
 func randJSONValue(r *rand.Rand) interface{} {
 	return pick(r, []interface{}{1, "v", true, nil, []interface{}{1, 2}, M{"k": "v"}, 2.5, "", []interface{}{}, M{}})
